@@ -171,6 +171,9 @@ def step_rules(ctx, m, owner, s):
               "post-loop clock writes: %s" % "; ".join(c.text() for c in after))
     ctx.check(len(s.resets) == 1 and not s.resets[0].guards and q.body.dominates(s.resets[0].b, s.head), "reset", tag, s.resets[0].loc() if s.resets else ctx.loc(f),
               "the traded-volume reset runs once before the loop", "traded-volume reset missing / conditional / after the loop")
+    if owner == "Env":
+        from .c03 import reset_rule
+        reset_rule(ctx, m, "reset")
     # only {reset, set_time, process_event} mutate the wrapped object
     allowed = {"reset_trade_vol", "reset_trade_vols", "set_time", "process_event"}
     for c in q.calls():
